@@ -1,7 +1,106 @@
-"""stream pa (model correspondence): whole parses of the DIMACS family, solver logs and the two AIGER formats
+"""stream pa (model correspondence): whole parses of the DIMACS family, solver logs, the two AIGER formats and BTOR2
 on the reader model, compared with the implementation: items, final outcome incl. error location or I/O error,
-number of read calls."""
+number of read calls.  BTOR2: every field of every line (or, flags 'w', the bytes `Line::write_into` writes for every
+parsed line), plus `pa b2c` cases for the validating constructors of the constants."""
+import re
 from streams import docs
+
+def _btor2_keywords():
+    """all keywords of the parser's tables, from the source"""
+    src = open("/repo/flussab-btor2/src/token.rs").read()
+    return re.findall(r'^\s*"([a-z]+)" => ', src, flags=re.M)
+
+
+KEYWORDS = _btor2_keywords() or ["sort", "and"]
+NUMS = ["0", "1", "7", "00", "01", "10", "12345678", "123456789", "18446744073709551615", "18446744073709551616",
+        "99999999999999999999", "4294967296", "9" * 30, "1" * 16, "-1", "+1", "1x", ""]
+
+
+def _b2_token_line(rng, nid):
+    """one node line built token by token, with deliberate near misses"""
+    r = rng.random()
+    kw = rng.choice(KEYWORDS)
+    if r < 0.25:
+        # a near miss of a keyword: prefix, extension, case, long lowercase runs around the 8-byte steps
+        kw = rng.choice([kw[:-1], kw + rng.choice("abxyz"), kw.upper(), kw + kw, kw[:1], "constrain", "constraints",
+                         "abcdefgh", "abcdefghi", "abcdefghijklmnop", "abcdefghijklmnopq", "z" * rng.randrange(1, 40),
+                         kw + "{", kw + "`", kw + "0", kw + "_"])
+    num = lambda: rng.choice(NUMS) if rng.random() < 0.15 else str(rng.randrange(1, 30))
+    nargs = rng.choice([0, 1, 2, 3, 4, 5])
+    if kw == "sort":
+        body = "sort " + rng.choice(["bitvec %s" % num(), "array %s %s" % (num(), num()), "bitvec", "array 1", "bitvecx 1", "bit 1", ""])
+    elif kw in ("const", "constd", "consth"):
+        c = rng.choice(["0", "1", "0101", "-", "-0", "-12", "--1", "12", "ff", "FF", "fg", "1f", "", "2", "9a", "a-1", "1 1"])
+        body = "%s %s %s" % (kw, num(), c)
+    elif kw == "justice":
+        c = rng.choice([0, 1, 2, 3, 5])
+        body = "justice %s %s" % (rng.choice([str(c), str(c), num()]), " ".join(num() for _ in range(c + rng.choice([0, 0, 0, -1, 1]))))
+        body = body.rstrip(" ") if rng.random() < 0.8 else body
+    else:
+        body = kw + "".join(" " + num() for _ in range(nargs))
+    s = "%s %s" % (rng.choice([str(nid), str(nid), num()]), body)
+    t = rng.random()
+    if t < 0.2:
+        s += " " + rng.choice(["sym", "a;b", ";", "x y", "\tq", "s\r", "ü", "a" * 20])
+    elif t < 0.3:
+        s += rng.choice([" ;", " ;c", ";", " ; c ; d", "  ;", " ;\r"])
+    elif t < 0.36:
+        s += rng.choice([" s ;", " s ;c", " s  ;c", " s ", " s c", " ", "  ", "\t", "\r"])
+    return s
+
+
+def gen_btor2_doc(rng):
+    k = rng.random()
+    if k < 0.5:
+        _, _, _, data, _ = docs.gen_doc(rng, parser="btor2")
+        return data
+    lines = []
+    nid = 0
+    for _ in range(rng.choice([1, 1, 2, 4, 8])):
+        if rng.random() < 0.12:
+            lines.append(rng.choice([";", "; c", ";;", "", " ", "   ; x", ";\r"]))
+            continue
+        nid += 1
+        lines.append(_b2_token_line(rng, nid))
+    sep = "\n" if rng.random() < 0.9 else rng.choice(["\r\n", "\n\n", "\n \n", " \n"])
+    text = sep.join(lines)
+    if rng.random() < 0.75:
+        text += "\n"
+    data = text.encode("utf-8", "surrogateescape")
+    if rng.random() < 0.25:
+        data = docs.mutate(rng, data)
+    return data
+
+
+def btor2_schedule(rng, n):
+    """as docs.gen_schedule, sometimes with a source that fails or ends early"""
+    evs, pre, chunk, ctor = docs.gen_schedule(rng, n)
+    r = rng.random()
+    if r < 0.22 and n > 0:
+        # deliver k bytes in pieces, then fail (or report a premature end)
+        k = rng.randrange(0, n + 1)
+        parts = []
+        left = max(0, k - (pre if ctor == "f" else 0))
+        while left > 0:
+            d = min(left, rng.choice([1, 2, 5, 8, 9, 40, 400]))
+            parts.append("d%d" % d)
+            left -= d
+            if rng.random() < 0.1:
+                parts.append("i")
+        parts.append(rng.choice(["f7", "f7", "f3", "e"]))
+        evs = ",".join(parts)
+        if ctor == "f":
+            pre = min(pre, k)
+    return evs, pre, chunk, ctor
+
+
+B2C = {
+    "b": ["0", "1", "0101", "", "2", "1" * 70, "0b1", "10a", " 1", "１"],
+    "d": ["0", "7", "-12", "1f", "a", "", "-", "12-3", "９", "1" * 30, "--1", "-a", "+1", "1-", "-0"],
+    "h": ["0", "ff", "DEADbeef", "g", "", "0x1", "a" * 40, "fG", "ü", "@", "`", "G", "/", ":"],
+}
+
+
 
 BAD_UTF8 = [b"\xff", b"\xc3", b"\xc3\x28", b"\xe2\x82", b"\xed\xa0\x80", b"\xf4\x90\x80\x80", b"\xc0\xaf", b"\xe0\x80\x80",
             b"\xf0\x9f\x98", b"\x80", b"\xf5\x80\x80\x80", b"\xef\xbf\xbd", b"\xf0\x9f\x98\x80", b"\xed\x9f\xbf", b"\xe0\xa0\x80",
@@ -98,21 +197,40 @@ def gen_aiger(rng, parser):
 
 def gen(rng, n, tier, **kw):
     out = []
+    for kind, strs in B2C.items():
+        for t in strs:
+            out.append("pa b2c %s %s" % (kind, docs.hexs(t.encode())))
     while len(out) < n:
-        parser = rng.choice(["cnf", "cnf", "wcnf", "gcnf", "log", "aag", "aag", "aig", "aig"])
+        parser = rng.choice(["cnf", "cnf", "wcnf", "gcnf", "log", "aag", "aag", "aig", "aig", "btor2", "btor2", "btor2"])
         if parser in ("aag", "aig"):
             case = gen_aiger(rng, parser)
             if case is not None:
                 out.append(case)
             continue
+        if parser == "btor2":
+            data = gen_btor2_doc(rng)
+            if len(data) > 400:
+                continue
+            flags = "w" if rng.random() < 0.3 else "-"
+            out.append("pa " + docs.setup("btor2", "-", flags, data, btor2_schedule(rng, len(data))))
+            continue
         parser, ty, flags, data, _ = docs.gen_doc(rng, parser=parser)
         if len(data) > 400:
             continue
-        out.append("pa " + docs.setup(parser, ty, flags, data, docs.gen_schedule(rng, len(data))))
+        sched = docs.gen_schedule(rng, len(data))
+        if rng.random() < 0.12:
+            sched = faulty(rng, sched, len(data))
+        out.append("pa " + docs.setup(parser, ty, flags, data, sched))
     return out
 
+
 def category(case):
-    return "pa/" + case.split()[1]
+    t = case.split()
+    return "pa/" + t[1] + ("/w" if t[1] == "btor2" and "w" in t[3] else "")
+
 
 def nontrivial(case):
-    return len(case.split()[4]) >= 16
+    t = case.split()
+    if t[1] == "b2c":
+        return True
+    return len(t[4]) >= 16
